@@ -26,6 +26,7 @@ from .. import gen
 
 PID = 'C16'
 KF_ERF0 = 'KF-nthderiv-erf-at-zero'
+KF_HYPERU = 'KF-nthderiv-hyperu-integer-b-nan'
 DPS = 45
 
 RULE = ('one bucket per name exported by algopy.nthderiv (enumerated at run time); a case = (function, order n, extra '
@@ -298,8 +299,9 @@ def _what(case):
 
 
 def _note_steering(case, stats):
-    for _ in range(int(case.get('steered', 0))):
-        stats.exclude(KF_ERF0)
+    for kfid, cnt in sorted((case.get('steered') or {}).items()):
+        for _ in range(int(cnt)):
+            stats.exclude(kfid)
 
 
 def prop_smooth(case, stats):
@@ -437,13 +439,24 @@ def smooth_cases(draw, name, tier):
     cnt = int(np.prod(shape, dtype=int))
     pt = _point(ivs, specials)
     vals = [draw(pt) for _ in range(cnt)]
-    steered = 0
+    steered = {}
     if name in ('erf', 'erfi') and n >= 2 and KF.is_open(KF_ERF0):
         # open known finding: NaN at exactly x == 0 for n >= 2; steer around exactly that point
         for k, v in enumerate(vals):
             if v == 0.0:
                 vals[k] = draw(st.sampled_from([0.5, -0.5, 1e-3, -1e-3, 0.25, 1.0]))
-                steered += 1
+                steered[KF_ERF0] = steered.get(KF_ERF0, 0) + 1
+    if name == 'hyperu' and n >= 1 and KF.is_open(KF_HYPERU):
+        # open known finding: scipy.special.hyperu(a+n, b+n, x) is NaN for integer b, large n and small x; steer around
+        # exactly the points where SciPy (not algopy) cannot evaluate the shifted function: move x to the right
+        a, b = extras
+        for k, v in enumerate(vals):
+            w = v
+            while not np.isfinite(scipy.special.hyperu(a + n, b + n, w)) and w < 8.0:
+                w = w + 1.0
+            if w != v:
+                vals[k] = w
+                steered[KF_HYPERU] = steered.get(KF_HYPERU, 0) + 1
     case = {'f': name, 'n': n, 'extras': extras, 'form': form, 'x': _build(form, vals, shape), 'out': draw(st.booleans())}
     if steered:
         case['steered'] = steered
@@ -521,8 +534,8 @@ def _classes(case):
                                       'at-bound' if v in (lo, hi) else ('below' if v < lo else ('above' if v > hi else 'inside'))))
     if any(v != round(2 * v) / 2 for v in el):
         c.append('x-has-generic-point')
-    if case.get('steered'):
-        c.append('steered-around-' + KF_ERF0)
+    for kfid in sorted(case.get('steered') or {}):
+        c.append('steered-around-' + kfid)
     return c
 
 
